@@ -89,7 +89,8 @@ func c09Oracle(ctx *genCtx, dir string, files map[string]string, args []string, 
 		return r, &genViolation{Clause: "silent-failure", Detail: fmt.Sprintf("[%s %s] exit %d without any message", s.Kind, s.Call, r.Exit), Facts: facts}
 	}
 	if s.Call != "" {
-		named := strings.Contains(msg, s.Call) || (s.Plugin != "" && strings.Contains(strings.ToLower(msg), s.Plugin)) || (s.Type != "" && strings.Contains(msg, s.Type))
+		nospace := func(x string) string { return strings.ReplaceAll(x, " ", "") }
+		named := strings.Contains(msg, s.Call) || (s.Plugin != "" && strings.Contains(strings.ToLower(msg), s.Plugin)) || (s.Type != "" && strings.Contains(nospace(msg), nospace(s.Type)))
 		// the innermost unsupported constituent counts as "the type it could not handle"
 		for _, kw := range [][2]string{{"chan", "chan"}, {"chan", "types.Chan"}, {"func", "func"}, {"func", "types.Signature"}, {"interface", "interface"}, {"interface", "types.Interface"}, {"error", "types.Interface"}, {"error", "error"}, {"Pointer", "Pointer"}, {"bool", "bool"}, {"complex", "complex"}} {
 			if s.Type != "" && strings.Contains(s.Type, kw[0]) && strings.Contains(msg, kw[1]) {
